@@ -409,3 +409,131 @@ Fixpoint run_q (R : qrep) (q : qstate) (ops : list qop) : list Z :=
 Definition run_queue (p : policy) (es : list entry) (choices : list Z) (perms : list (list Z))
            (ops : list qop) : list Z :=
   run_q all_rep (qinit p es choices perms) ops.
+
+(* ======================================================================================
+   ADDITIONS for the harness coverage audit (correspondence only: no theorem refers to them
+   and nothing above is changed).  They reach the parts of the public surface the histories
+   above cannot express:
+     append(..., duration=d)                 declared duration different from the waveform length
+     pop_buffer(n, decrement=False)          trial set up without touching the trial counter
+     count_factories(), get_closest_key(t)   observers of _ordering / _generated
+   Default operations go through the SAME pop_buffer / pause / resume as run_q.            *)
+
+Definition mk_entry_dur (trials len : Z) (k : skind) (delays : list Z) (cyc : bool) (dur : Z) : entry :=
+  {| e_trials := trials; e_requested := trials; e_len := len; e_kind := k; e_delays := delays;
+     e_cyclic := cyc; e_dpos := 0; e_dur := dur |}.
+
+(* next_trial(decrement=False): pop_key skips decrement_key; the log entry records decrement=False *)
+Definition next_trial_nd (R : qrep) (q : qstate) : ntres :=
+  match next_key R q with
+  | NEmpty => NTempty
+  | NError => NTerror
+  | NKey key q2 =>
+    match znth (q_data q2) key with
+    | None => NTerror
+    | Some e =>
+      match next_delay e with
+      | None => NTerror
+      | Some dl =>
+        if dl <? 0 then NTerror
+        else
+          let inf := {| i_t0 := q_samples q2; i_dur := e_dur e; i_key := key; i_dec := false |} in
+          NTok {| q_pol := q_pol q2; q_data := upd_entry (q_data q2) key adv_delay;
+                  q_ordering := q_ordering q2; q_source := Some (key, 0, e_len e); q_delay := dl;
+                  q_samples := q_samples q2; q_paused := q_paused q2; q_empty := q_empty q2;
+                  q_generated := q_generated q2 ++ [inf]; q_i := q_i q2; q_iperm := q_iperm q2;
+                  q_complete := q_complete q2; q_choices := q_choices q2; q_perms := q_perms q2 |}
+               (EAdded key (q_samples q2))
+      end
+    end
+  end.
+
+(* _pop_buffer(samples, decrement=False): only the trial set-up branch differs *)
+Definition pop_step_nd (R : qrep) (q : qstate) (samples : Z) : pbres :=
+  if q_paused q then pop_step R q samples
+  else
+    match q_source q with
+    | Some _ => pop_step R q samples
+    | None =>
+      if q_delay q >? 0 then pop_step R q samples
+      else
+        match next_trial_nd R q with
+        | NTok q' ev => PBok q' [] [ev]
+        | NTempty => PBempty
+        | NTerror => PBerror
+        end
+    end.
+
+Fixpoint pop_loop_nd (fuel : nat) (R : qrep) (q : qstate) (samples : Z)
+  : option (qstate * list osample * list event) :=
+  if samples <=? 0 then Some (q, [], [])
+  else
+    match fuel with
+    | O => None
+    | S f =>
+      match pop_step_nd R q samples with
+      | PBerror => None
+      | PBempty =>
+        let q' := add_samples q samples true in
+        Some (q', repeat OZero (Z.to_nat samples), [EEmpty])
+      | PBok q1 out ev =>
+        let n := zlen out in
+        match pop_loop_nd f R (add_samples q1 n false) (samples - n) with
+        | None => None
+        | Some (q2, out2, ev2) => Some (q2, out ++ out2, ev ++ ev2)
+        end
+      end
+    end.
+
+(* without decrementing the trial counters bound nothing: the harness only issues such requests on
+   stimuli that occupy at least one sample per trial, so 3 steps per sample (+ slack) suffice *)
+Definition pop_buffer_nd (R : qrep) (q : qstate) (samples : Z) :=
+  pop_loop_nd (Z.to_nat (4 * samples + 16)) R q samples.
+
+(* get_closest_key(t): newest logged trial with t0 <= t; -1 = None *)
+Definition closest_key (q : qstate) (t : Z) : Z :=
+  match find (fun i => i_t0 i <=? t) (rev (q_generated q)) with
+  | Some i => i_key i
+  | None => -1
+  end.
+
+Definition count_factories (q : qstate) : Z := zlen (q_ordering q).
+
+Inductive xop :=
+| XPop (n : Z) (dec : bool) | XPause (t : option Z) | XResume (t : option Z) | XClosest (t : Z).
+
+Definition dur_of (q : qstate) (k : Z) : Z :=
+  match znth (q_data q) k with Some e => e_dur e | None => 0 end.
+(* notifications with the duration field of the info dict *)
+Definition enc_event_x (q : qstate) (e : event) : list Z :=
+  match e with
+  | EAdded k t => [1; k; t; dur_of q k]
+  | ERemoved k t => [2; k; t; dur_of q k]
+  | EEmpty => [3; 0; 0; 0]
+  end.
+Definition enc_status_x (q : qstate) : list Z := enc_status q ++ [count_factories q].
+
+(* per op:  code (1 pop ok / 2 raised / 3 pause ok / 4 pause ValueError / 5 resume / 6 closest-key query) *)
+Fixpoint run_qx (R : qrep) (q : qstate) (ops : list xop) : list Z :=
+  match ops with
+  | [] => []
+  | XPop n dec :: t =>
+    match (if dec then pop_buffer R q n else pop_buffer_nd R q n) with
+    | None => [2]
+    | Some (q', out, ev) =>
+      [1; zlen out] ++ flat_map enc_sample out ++ [zlen ev] ++ flat_map (enc_event_x q') ev
+      ++ enc_status_x q' ++ run_qx R q' t
+    end
+  | XPause tm :: t =>
+    let '(q', ev, err) := pause R q tm in
+    if err then [4; zlen ev] ++ flat_map (enc_event_x q') ev
+    else [3; 0; zlen ev] ++ flat_map (enc_event_x q') ev ++ enc_status_x q' ++ run_qx R q' t
+  | XResume tm :: t =>
+    let q' := resume q tm in
+    [5; 0; 0] ++ enc_status_x q' ++ run_qx R q' t
+  | XClosest tm :: t =>
+    [6; closest_key q tm] ++ run_qx R q t
+  end.
+Definition run_queue_x (p : policy) (es : list entry) (choices : list Z) (perms : list (list Z))
+           (ops : list xop) : list Z :=
+  run_qx all_rep (qinit p es choices perms) ops.
